@@ -139,7 +139,12 @@ def verdict(v, st, prop, res, known_match=None, max_report=3, replay_file="cases
     for tag, line, outdir in res["spec_fail"]:
         cid = line.split()[0]
         case = case_line(outdir, cid, replay_file)
-        k = known_match(line, case) if known_match else None
+        k = None
+        if known_match:
+            try:
+                k = known_match(line, case, outdir)
+            except TypeError:
+                k = known_match(line, case)
         if k:
             v.known(k)
             continue
